@@ -103,6 +103,16 @@ Theorem C06_accept : forall p addr pdu chunks fi,
 Proof. exact rtu_accept. Qed.
 Print Assumptions C06_accept.
 
+(* The RTU client (and any other user of one FramedReader across port reopenings that resets it
+   at connection start, as ClientLoop::run does): every connection's stream is delimited and
+   CRC-gated on its own, whatever an earlier connection left in the buffer or the parser. *)
+Theorem C06_client : forall p conns r, is_rtu p r -> Forall (fun c => Forall bytes (fst c)) conns ->
+  client_connections true r conns =
+  map (fun c => (map IFrame (fst (ref_rtu_frames (role_of p) (fst (sched_stream (fst c) (snd c))) (snd (sched_stream (fst c) (snd c))))),
+                 snd (ref_rtu_frames (role_of p) (fst (sched_stream (fst c) (snd c))) (snd (sched_stream (fst c) (snd c)))))) conns.
+Proof. exact rtu_client_every_connection_fresh. Qed.
+Print Assumptions C06_client.
+
 (* non-vacuity / sanity: the check value of CRC-16/MODBUS and the crate's read-coils vector *)
 Example C06_crc_check_value : crc [49;50;51;52;53;54;55;56;57]%N = 0x4B37%N.
 Proof. vm_compute. reflexivity. Qed.
